@@ -82,5 +82,23 @@ except ValueError:
     pass
 record("string-label arithmetic: TypeError iff the array is non-empty; argmin of an empty sequence raises ValueError", 3, bad)
 
+# 6. rollaxis: the model's permutation rule against NumPy, all (ndim <= 4, axis, start)
+def model_roll(n, axis, start):
+    if axis < 0: axis += n
+    if start < 0: start += n
+    if axis < start: start -= 1
+    axes = list(range(n))
+    if axis != start:
+        axes.remove(axis); axes.insert(start, axis)
+    return axes
+bad = n = 0
+for nd in range(1, 5):
+    a = np.empty(tuple(range(2, 2 + nd)))
+    for axis in range(-nd, nd):
+        for start in range(-nd, nd + 1):
+            n += 1
+            bad += 0 if np.rollaxis(a, axis, start).shape == tuple(a.shape[i] for i in model_roll(nd, axis, start)) else 1
+record("rollaxis permutation rule (ndim <= 4, every axis and start, negatives included)", n, bad)
+
 print(json.dumps({"numpy": np.__version__, "results": results}, indent=1))
 sys.exit(3 if any(r["mismatches"] for r in results) else 0)
